@@ -354,7 +354,7 @@ fn grammar_of_src(src: &str) -> (String, String, Option<OpTable>, Option<String>
             ("op".into(), serde_json::to_string(&g).unwrap(), Some(t), None)
         }
         "glr" => {
-            let g = glr_grammars().into_iter().find(|(n, _)| n == f[1]).expect("glr grammar").1;
+            let g = glr_grammars_c03().into_iter().find(|(n, _)| n == f[1]).expect("glr grammar").1;
             ("glr".into(), serde_json::to_string(&g).unwrap(), None, None)
         }
         "zoo" => {
@@ -464,7 +464,7 @@ fn main() {
     }
 
     // hand-written grammars with declared conflicts
-    for (name, g) in glr_grammars() {
+    for (name, g) in glr_grammars_c03() {
         let json = serde_json::to_string(&g).unwrap();
         explore_token_grammar(&mut em, &mut cu, &mut rng, &name, "glr", &format!("glr:{name}"), &json, None, budget, nrandom, &mut stats);
     }
